@@ -1,6 +1,632 @@
 package main
 
+import (
+	"bytes"
+	"encoding/json"
+	"fmt"
+	"go/ast"
+	"go/token"
+	"go/types"
+	"os"
+	"os/exec"
+	"path/filepath"
+	"regexp"
+	"strconv"
+	"strings"
+
+	"golang.org/x/tools/go/ssa"
+)
+
+// ---- counterexample replay
+//
+// A failed postcondition of a function over scalars (strings, integers, booleans; no receiver) comes with a solver
+// model of the parameters. The model is run against the real code: an in-package test, injected with `go test
+// -overlay` (nothing is written into /repo), calls the function with the model's arguments and evaluates the contract's
+// `requires` clauses and the violated `ensures` clause, translated to Go. If the preconditions hold and the
+// postcondition is false on the real result, the counterexample is confirmed and the VIOLATION line carries a failing
+// input. Everything else (no model, unsupported parameter types or contract constructs, the model does not reproduce)
+// leaves the violation reported with `no-failing-input-found`.
+
 // tryReplay attempts to confirm a counterexample model on the real code.
 func tryReplay(eng *Engine, o *Obligation, verif string) (bool, string) {
-	return false, ""
+	if o.Class != "post" || o.Model == "" {
+		return false, ""
+	}
+	fn := eng.findByShortName(o.Func)
+	if fn == nil || fn.Signature.Recv() != nil || fn.Parent() != nil || fn.Pkg == nil {
+		return false, ""
+	}
+	ct := eng.contractFor(fn)
+	if ct == nil {
+		return false, ""
+	}
+	// the violated clause
+	i := strings.Index(o.Name, "#post:")
+	if i < 0 {
+		return false, ""
+	}
+	label := o.Name[i+len("#post:"):]
+	if k := strings.LastIndex(label, "~"); k >= 0 {
+		label = label[:k]
+	}
+	var clause *Clause
+	for ci := range ct.Ensures {
+		if clauseLabel(ct.Ensures[ci], ci) == label {
+			clause = &ct.Ensures[ci]
+		}
+	}
+	if clause == nil {
+		return false, ""
+	}
+	model := parseModel(o.Model)
+	tr := &goTranslator{eng: eng, pkgPath: fn.Pkg.Pkg.Path(), specs: map[string]string{}, params: map[string]bool{}}
+	var args []string
+	var shown []string
+	for _, p := range fn.Params {
+		tr.params[p.Name()] = true
+		v, ok := model["p!"+p.Name()]
+		lit, err := goLiteral(v, ok, p.Type())
+		if err != nil {
+			return false, "not replayed: " + err.Error()
+		}
+		args = append(args, lit)
+		shown = append(shown, p.Name()+" = "+lit)
+	}
+	res := fn.Signature.Results()
+	var resNames []string
+	switch res.Len() {
+	case 0:
+	case 1:
+		resNames = []string{"result"}
+		tr.params["result"] = true
+	default:
+		for k := 0; k < res.Len(); k++ {
+			n := fmt.Sprintf("result%d", k)
+			resNames = append(resNames, n)
+			tr.params[n] = true
+		}
+	}
+	post, err := tr.expr(clause.Expr)
+	if err != nil {
+		return false, "not replayed: the violated clause is outside the translatable subset (" + err.Error() + ")"
+	}
+	var pres []string
+	for _, r := range ct.Requires {
+		g, err := tr.expr(r.Expr)
+		if err != nil {
+			return false, "not replayed: a precondition is outside the translatable subset (" + err.Error() + ")"
+		}
+		pres = append(pres, g)
+	}
+	// the test file
+	var b bytes.Buffer
+	fmt.Fprintf(&b, "package %s\n\nimport (\n\t\"strings\"\n\t\"testing\"\n)\n\nvar _ = strings.Contains\n\n", fn.Pkg.Pkg.Name())
+	b.WriteString("func govcIte[T any](c bool, a, b T) T {\n\tif c {\n\t\treturn a\n\t}\n\treturn b\n}\n\n")
+	b.WriteString("func govcForall(lo, hi int, f func(int) bool) bool {\n\tfor i := lo; i < hi; i++ {\n\t\tif !f(i) {\n\t\t\treturn false\n\t\t}\n\t}\n\treturn true\n}\n\n")
+	b.WriteString("func govcExists(lo, hi int, f func(int) bool) bool {\n\tfor i := lo; i < hi; i++ {\n\t\tif f(i) {\n\t\t\treturn true\n\t\t}\n\t}\n\treturn false\n}\n\n")
+	b.WriteString("func govcSubstr(s string, i, j int) string {\n\tif i < 0 {\n\t\ti = 0\n\t}\n\tif j > len(s) {\n\t\tj = len(s)\n\t}\n\tif j < i {\n\t\treturn \"\"\n\t}\n\treturn s[i:j]\n}\n\n")
+	for _, name := range sortedKeys(tr.specs) {
+		b.WriteString(tr.specs[name])
+		b.WriteString("\n")
+	}
+	b.WriteString("func TestGovcReplay(t *testing.T) {\n")
+	for k, p := range fn.Params {
+		fmt.Fprintf(&b, "\tvar %s %s = %s\n\t_ = %s\n", p.Name(), types.TypeString(p.Type(), func(pk *types.Package) string {
+			if pk.Path() == fn.Pkg.Pkg.Path() {
+				return ""
+			}
+			return pk.Name()
+		}), args[k], p.Name())
+	}
+	for k, g := range pres {
+		fmt.Fprintf(&b, "\tif !(%s) {\n\t\tt.Logf(\"GOVC-REPLAY precondition %d does not hold for the model\")\n\t\treturn\n\t}\n", g, k)
+	}
+	var pnames []string
+	for _, p := range fn.Params {
+		pnames = append(pnames, p.Name())
+	}
+	call := fn.Name() + "(" + strings.Join(pnames, ", ") + ")"
+	// results of named scalar types are compared through their underlying type (the contract language is untyped there)
+	convs := ""
+	for k, r := range resNames {
+		rt := res.At(k).Type()
+		if bt, ok := rt.Underlying().(*types.Basic); ok && rt != types.Type(bt) {
+			convs += fmt.Sprintf("\t%s_u := %s(%s)\n\t_ = %s_u\n", r, bt.Name(), r, r)
+			post = regexp.MustCompile(`\b`+r+`\b`).ReplaceAllString(post, r+"_u")
+		}
+	}
+	if len(resNames) > 0 {
+		fmt.Fprintf(&b, "\t%s := %s\n", strings.Join(resNames, ", "), call)
+		for _, r := range resNames {
+			fmt.Fprintf(&b, "\t_ = %s\n", r)
+		}
+		b.WriteString(convs)
+	} else {
+		fmt.Fprintf(&b, "\t%s\n", call)
+	}
+	fmt.Fprintf(&b, "\tif !(%s) {\n\t\tt.Fatalf(\"GOVC-REPLAY-VIOLATION postcondition [%s] is false on the real code; results: %%#v\", []interface{}{%s})\n\t}\n\tt.Logf(\"GOVC-REPLAY postcondition holds for the model input\")\n}\n",
+		post, label, strings.Join(resNames, ", "))
+	// When the model does not reproduce (library functions are uninterpreted in the proof, so the solver's strings
+	// can be artefacts), the same check is run over a small grid of inputs built from the literals of the function
+	// and of its contract: the obligation has failed already; this only looks for a concrete input that shows it.
+	alphabet := literalAlphabet(fn, ct)
+	b.WriteString("\nfunc govcStrings(alpha []string, maxLen int) []string {\n\tout := []string{\"\"}\n\tlevel := []string{\"\"}\n\tfor l := 0; l < maxLen; l++ {\n\t\tvar next []string\n\t\tfor _, s := range level {\n\t\t\tfor _, a := range alpha {\n\t\t\t\tnext = append(next, s+a)\n\t\t\t}\n\t\t}\n\t\tout = append(out, next...)\n\t\tlevel = next\n\t}\n\treturn out\n}\n\n")
+	b.WriteString("func TestGovcReplaySearch(t *testing.T) {\n")
+	nStr := 0
+	for _, p := range fn.Params {
+		if bt, ok := p.Type().Underlying().(*types.Basic); ok && bt.Info()&types.IsString != 0 {
+			nStr++
+		}
+	}
+	maxLen := 4
+	if nStr > 1 {
+		maxLen = 2
+	}
+	fmt.Fprintf(&b, "\talpha := []string{%s}\n\tstrs := govcStrings(alpha, %d)\n\tints := []int64{-1, 0, 1, 2, 3, 10}\n\tbools := []bool{false, true}\n\t_, _, _ = strs, ints, bools\n", alphabet, maxLen)
+	closeBraces := 0
+	for _, p := range fn.Params {
+		bt := p.Type().Underlying().(*types.Basic)
+		tn := types.TypeString(p.Type(), func(pk *types.Package) string {
+			if pk.Path() == fn.Pkg.Pkg.Path() {
+				return ""
+			}
+			return pk.Name()
+		})
+		switch {
+		case bt.Info()&types.IsString != 0:
+			fmt.Fprintf(&b, "\tfor _, c_%s := range strs {\n\t%s := %s(c_%s)\n", p.Name(), p.Name(), tn, p.Name())
+		case bt.Info()&types.IsBoolean != 0:
+			fmt.Fprintf(&b, "\tfor _, c_%s := range bools {\n\t%s := %s(c_%s)\n", p.Name(), p.Name(), tn, p.Name())
+		default:
+			fmt.Fprintf(&b, "\tfor _, c_%s := range ints {\n\t%s := %s(c_%s)\n", p.Name(), p.Name(), tn, p.Name())
+		}
+		fmt.Fprintf(&b, "\t_ = %s\n", p.Name())
+		closeBraces++
+	}
+	b.WriteString("\tfunc() {\n\t\tdefer func() { _ = recover() }()\n")
+	for _, g := range pres {
+		fmt.Fprintf(&b, "\t\tif !(%s) {\n\t\t\treturn\n\t\t}\n", g)
+	}
+	if len(resNames) > 0 {
+		fmt.Fprintf(&b, "\t\t%s := %s\n", strings.Join(resNames, ", "), call)
+		for _, r := range resNames {
+			fmt.Fprintf(&b, "\t\t_ = %s\n", r)
+		}
+		b.WriteString(convs)
+	} else {
+		fmt.Fprintf(&b, "\t\t%s\n", call)
+	}
+	fmt.Fprintf(&b, "\t\tif !(%s) {\n\t\t\tt.Fatalf(\"GOVC-REPLAY-VIOLATION postcondition [%s] is false on the real code for input %%#v; results: %%#v\", []interface{}{%s}, []interface{}{%s})\n\t\t}\n\t}()\n",
+		post, label, strings.Join(pnames, ", "), strings.Join(resNames, ", "))
+	for k := 0; k < closeBraces; k++ {
+		b.WriteString("\t}\n")
+	}
+	b.WriteString("\tt.Logf(\"GOVC-REPLAY search: no failing input in the grid\")\n}\n")
+
+	// run it
+	repDir := filepath.Join(verif, "replays")
+	os.MkdirAll(repDir, 0o755)
+	base := "replay_" + sanitize(o.Name)
+	testFile := filepath.Join(repDir, base+"_test.go")
+	if err := os.WriteFile(testFile, b.Bytes(), 0o644); err != nil {
+		return false, "not replayed: " + err.Error()
+	}
+	pkgDir := filepath.Join(eng.repo, strings.TrimPrefix(fn.Pkg.Pkg.Path(), eng.modulePath()+"/"))
+	overlay := map[string]map[string]string{"Replace": {filepath.Join(pkgDir, "zz_govc_replay_test.go"): testFile}}
+	ov, _ := json.Marshal(overlay)
+	ovFile := filepath.Join(repDir, base+".overlay.json")
+	os.WriteFile(ovFile, ov, 0o644)
+	cmd := exec.Command("go", "test", "-overlay", ovFile, "-vet=off", "-count=1", "-timeout", "60s", "-run", "^TestGovcReplay(Search)?$", "-v", ".")
+	cmd.Dir = pkgDir
+	cmd.Env = append(os.Environ(), "GOFLAGS=-mod=mod", "GOPROXY=off", "GOSUMDB=off", "GOTOOLCHAIN=local")
+	out, _ := cmd.CombinedOutput()
+	text := string(out)
+	if len(text) > 3000 {
+		text = text[len(text)-3000:]
+	}
+	log := fmt.Sprintf("model input: %s\nreplay test: %s (run in %s with go test -overlay %s -run TestGovcReplay)\n%s", strings.Join(shown, ", "), testFile, pkgDir, ovFile, text)
+	if k := strings.Index(string(out), "GOVC-REPLAY-VIOLATION"); k >= 0 {
+		line := string(out)[k:]
+		if e := strings.IndexByte(line, '\n'); e >= 0 {
+			line = line[:e]
+		}
+		return true, "CONFIRMED on the real code: " + line + "\n" + log
+	}
+	return false, "the model did not reproduce on the real code (or could not be run).\n" + log
+}
+
+func (e *Engine) modulePath() string {
+	if e.modPath != "" {
+		return e.modPath
+	}
+	data, err := os.ReadFile(filepath.Join(e.repo, "go.mod"))
+	if err == nil {
+		for _, l := range strings.Split(string(data), "\n") {
+			if strings.HasPrefix(l, "module ") {
+				e.modPath = strings.TrimSpace(strings.TrimPrefix(l, "module "))
+			}
+		}
+	}
+	return e.modPath
+}
+
+func (e *Engine) findByShortName(short string) *ssa.Function {
+	for _, p := range e.spkgs {
+		for _, fn := range e.allFunctions(p.Pkg.Path()) {
+			if e.shortName(fn) == short {
+				return fn
+			}
+		}
+	}
+	return nil
+}
+
+// ---- solver model -> values
+
+var defRe = regexp.MustCompile(`\(define-fun\s+(\|[^|]*\||[^\s()]+)\s+\(\)\s+(\S+)\s+`)
+
+// parseModel extracts the nullary definitions of a z3 / cvc5 model: name -> value text.
+func parseModel(m string) map[string]string {
+	out := map[string]string{}
+	for _, loc := range defRe.FindAllStringSubmatchIndex(m, -1) {
+		name := strings.Trim(m[loc[2]:loc[3]], "|")
+		rest := m[loc[1]:]
+		// the value: a string literal, an atom, or a parenthesised term
+		rest = strings.TrimLeft(rest, " \n\t")
+		val := ""
+		switch {
+		case strings.HasPrefix(rest, "\""):
+			j := 1
+			for j < len(rest) {
+				if rest[j] == '"' {
+					if j+1 < len(rest) && rest[j+1] == '"' {
+						j += 2
+						continue
+					}
+					break
+				}
+				j++
+			}
+			if j < len(rest) {
+				val = rest[:j+1]
+			}
+		case strings.HasPrefix(rest, "("):
+			d := 0
+			for j := 0; j < len(rest); j++ {
+				if rest[j] == '(' {
+					d++
+				} else if rest[j] == ')' {
+					d--
+					if d == 0 {
+						val = rest[:j+1]
+						break
+					}
+				}
+			}
+		default:
+			j := strings.IndexAny(rest, " )\n")
+			if j > 0 {
+				val = rest[:j]
+			}
+		}
+		if val != "" {
+			out[name] = val
+		}
+	}
+	return out
+}
+
+var uEsc = regexp.MustCompile(`\\u\{([0-9a-fA-F]+)\}|\\u([0-9a-fA-F]{4})|\\x([0-9a-fA-F]{2})`)
+
+func goLiteral(v string, present bool, t types.Type) (string, error) {
+	b, ok := t.Underlying().(*types.Basic)
+	if !ok {
+		return "", fmt.Errorf("parameter of type %s is not a scalar", t)
+	}
+	switch {
+	case b.Info()&types.IsString != 0:
+		if !present {
+			return `""`, nil
+		}
+		if len(v) < 2 || v[0] != '"' {
+			return "", fmt.Errorf("unexpected string value %q", v)
+		}
+		s := strings.ReplaceAll(v[1:len(v)-1], `""`, `"`)
+		s = uEsc.ReplaceAllStringFunc(s, func(m string) string {
+			sub := uEsc.FindStringSubmatch(m)
+			h := sub[1] + sub[2] + sub[3]
+			n, err := strconv.ParseInt(h, 16, 32)
+			if err != nil {
+				return m
+			}
+			if n < 256 {
+				return string([]byte{byte(n)})
+			}
+			return string(rune(n))
+		})
+		return strconv.Quote(s), nil
+	case b.Info()&types.IsBoolean != 0:
+		if v == "true" {
+			return "true", nil
+		}
+		return "false", nil
+	case b.Info()&types.IsInteger != 0:
+		if !present {
+			return "0", nil
+		}
+		s := strings.NewReplacer("(", "", ")", "", " ", "").Replace(v)
+		if _, err := strconv.ParseInt(s, 10, 64); err != nil {
+			return "", fmt.Errorf("integer value %q does not fit the parameter type", v)
+		}
+		return s, nil
+	}
+	return "", fmt.Errorf("parameter of type %s is not supported", t)
+}
+
+// ---- contract expression -> Go source
+
+type goTranslator struct {
+	eng     *Engine
+	pkgPath string
+	specs   map[string]string // spec function name -> Go source of its translation
+	params  map[string]bool
+	bound   []string
+	busy    map[string]bool
+}
+
+func (g *goTranslator) expr(x ast.Expr) (string, error) {
+	switch n := x.(type) {
+	case *ast.ParenExpr:
+		s, err := g.expr(n.X)
+		return "(" + s + ")", err
+	case *ast.Ident:
+		if n.Name == "true" || n.Name == "false" {
+			return n.Name, nil
+		}
+		for _, b := range g.bound {
+			if b == n.Name {
+				return n.Name, nil
+			}
+		}
+		if g.params[n.Name] {
+			return n.Name, nil
+		}
+		return "", fmt.Errorf("identifier %s", n.Name)
+	case *ast.BasicLit:
+		return n.Value, nil
+	case *ast.UnaryExpr:
+		s, err := g.expr(n.X)
+		if err != nil {
+			return "", err
+		}
+		switch n.Op {
+		case token.NOT:
+			return "!(" + s + ")", nil
+		case token.SUB:
+			return "-(" + s + ")", nil
+		}
+		return "", fmt.Errorf("operator %s", n.Op)
+	case *ast.BinaryExpr:
+		a, err := g.expr(n.X)
+		if err != nil {
+			return "", err
+		}
+		b, err := g.expr(n.Y)
+		if err != nil {
+			return "", err
+		}
+		switch n.Op {
+		case token.LAND, token.LOR, token.EQL, token.NEQ, token.LSS, token.LEQ, token.GTR, token.GEQ, token.ADD, token.SUB, token.MUL:
+			return "(" + a + " " + n.Op.String() + " " + b + ")", nil
+		}
+		return "", fmt.Errorf("operator %s", n.Op)
+	case *ast.IndexExpr:
+		a, err := g.expr(n.X)
+		if err != nil {
+			return "", err
+		}
+		i, err := g.expr(n.Index)
+		if err != nil {
+			return "", err
+		}
+		return "int(" + a + "[" + i + "])", nil // contracts index strings only (character codes)
+	case *ast.CallExpr:
+		id, ok := n.Fun.(*ast.Ident)
+		if !ok {
+			return "", fmt.Errorf("call of a non-builtin")
+		}
+		var as []string
+		argsOf := func() error {
+			for _, a := range n.Args {
+				s, err := g.expr(a)
+				if err != nil {
+					return err
+				}
+				as = append(as, s)
+			}
+			return nil
+		}
+		switch id.Name {
+		case "old":
+			return g.expr(n.Args[0]) // parameters are scalars passed by value
+		case "forall", "exists":
+			if len(n.Args) != 4 {
+				return "", fmt.Errorf("%s arity", id.Name)
+			}
+			v, ok := n.Args[0].(*ast.Ident)
+			if !ok {
+				return "", fmt.Errorf("%s variable", id.Name)
+			}
+			lo, err := g.expr(n.Args[1])
+			if err != nil {
+				return "", err
+			}
+			hi, err := g.expr(n.Args[2])
+			if err != nil {
+				return "", err
+			}
+			g.bound = append(g.bound, v.Name)
+			body, err := g.expr(n.Args[3])
+			g.bound = g.bound[:len(g.bound)-1]
+			if err != nil {
+				return "", err
+			}
+			f := "govcForall"
+			if id.Name == "exists" {
+				f = "govcExists"
+			}
+			return fmt.Sprintf("%s(%s, %s, func(%s int) bool { return %s })", f, lo, hi, v.Name, body), nil
+		}
+		if err := argsOf(); err != nil {
+			return "", err
+		}
+		switch id.Name {
+		case "len":
+			return "len(" + as[0] + ")", nil
+		case "implies":
+			return "(!(" + as[0] + ") || (" + as[1] + "))", nil
+		case "iff":
+			return "((" + as[0] + ") == (" + as[1] + "))", nil
+		case "ite":
+			return "govcIte(" + strings.Join(as, ", ") + ")", nil
+		case "replaceAll":
+			return "strings.ReplaceAll(" + strings.Join(as, ", ") + ")", nil
+		case "contains":
+			return "strings.Contains(" + strings.Join(as, ", ") + ")", nil
+		case "hasPrefix":
+			return "strings.HasPrefix(" + strings.Join(as, ", ") + ")", nil
+		case "hasSuffix":
+			return "strings.HasSuffix(" + strings.Join(as, ", ") + ")", nil
+		case "indexOf":
+			return "strings.Index(" + strings.Join(as, ", ") + ")", nil
+		case "substr":
+			// substr(s, i, n): n characters from i (SMT str.substr)
+			return "govcSubstr(" + as[0] + ", " + as[1] + ", (" + as[1] + ")+(" + as[2] + "))", nil
+		}
+		if sp := g.spec(id.Name); sp != nil {
+			if err := g.emitSpec(sp); err != nil {
+				return "", err
+			}
+			return "govcSpec_" + id.Name + "(" + strings.Join(as, ", ") + ")", nil
+		}
+		return "", fmt.Errorf("builtin or function %s", id.Name)
+	}
+	return "", fmt.Errorf("expression %T", x)
+}
+
+func (g *goTranslator) spec(name string) *SpecFunc {
+	if sp, ok := g.eng.contracts.Specs[g.pkgPath+"::"+name]; ok {
+		return sp
+	}
+	if sp, ok := g.eng.contracts.Specs[name]; ok {
+		return sp
+	}
+	return nil
+}
+
+func (g *goTranslator) emitSpec(sp *SpecFunc) error {
+	if _, done := g.specs[sp.Name]; done {
+		return nil
+	}
+	goType := func(t string) (string, error) {
+		switch t {
+		case "string", "int", "bool":
+			return t, nil
+		}
+		return "", fmt.Errorf("spec function %s uses type %s", sp.Name, t)
+	}
+	g.specs[sp.Name] = "" // placeholder: recursive specs refer to themselves
+	var ps []string
+	saveBound := g.bound
+	for _, p := range sp.Params {
+		t, err := goType(p.Type)
+		if err != nil {
+			return err
+		}
+		ps = append(ps, p.Name+" "+t)
+		g.bound = append(g.bound, p.Name)
+	}
+	rt, err := goType(sp.Result)
+	if err != nil {
+		g.bound = saveBound
+		return err
+	}
+	body, err := g.specBody(sp.Body, rt)
+	g.bound = saveBound
+	if err != nil {
+		return err
+	}
+	g.specs[sp.Name] = fmt.Sprintf("func govcSpec_%s(%s) %s {\n%s}\n", sp.Name, strings.Join(ps, ", "), rt, body)
+	return nil
+}
+
+// specBody: `ite(c, a, b)` at the top of a spec body becomes an if / else (lazy, so that recursive specs terminate).
+func (g *goTranslator) specBody(x ast.Expr, rt string) (string, error) {
+	if c, ok := x.(*ast.CallExpr); ok {
+		if id, ok := c.Fun.(*ast.Ident); ok && id.Name == "ite" && len(c.Args) == 3 {
+			cond, err := g.expr(c.Args[0])
+			if err != nil {
+				return "", err
+			}
+			a, err := g.specBody(c.Args[1], rt)
+			if err != nil {
+				return "", err
+			}
+			b, err := g.specBody(c.Args[2], rt)
+			if err != nil {
+				return "", err
+			}
+			return fmt.Sprintf("\tif %s {\n%s\t}\n%s", cond, a, b), nil
+		}
+	}
+	s, err := g.expr(x)
+	if err != nil {
+		return "", err
+	}
+	return "\treturn " + s + "\n", nil
+}
+
+// literalAlphabet: the characters of the string literals in the function's code and contract (plus a letter), as Go
+// string literals separated by commas — the alphabet of the replay search grid.
+func literalAlphabet(fn *ssa.Function, ct *FuncContract) string {
+	seen := map[string]bool{}
+	var out []string
+	add := func(s string) {
+		for _, r := range s {
+			c := string(r)
+			if !seen[c] && len(out) < 6 {
+				seen[c] = true
+				out = append(out, strconv.Quote(c))
+			}
+		}
+	}
+	collect := func(e ast.Expr) {
+		ast.Inspect(e, func(n ast.Node) bool {
+			if bl, ok := n.(*ast.BasicLit); ok && bl.Kind == token.STRING {
+				if s, err := strconv.Unquote(bl.Value); err == nil {
+					add(s)
+				}
+			}
+			return true
+		})
+	}
+	for _, b := range fn.Blocks {
+		for _, in := range b.Instrs {
+			for _, op := range in.Operands(nil) {
+				if c, ok := (*op).(*ssa.Const); ok && c.Value != nil && c.Value.Kind().String() == "String" {
+					if s, err := strconv.Unquote(c.Value.ExactString()); err == nil {
+						add(s)
+					}
+				}
+			}
+		}
+	}
+	for _, c := range ct.Ensures {
+		collect(c.Expr)
+	}
+	for _, c := range ct.Requires {
+		collect(c.Expr)
+	}
+	add("a")
+	return strings.Join(out, ", ")
 }
